@@ -6,7 +6,7 @@ from __future__ import annotations
 import ast
 import re
 
-from ..astutil import call_attr, call_name, calls_in, dewalrus, guard_facts, unparse, walk_local, text_facts
+from ..astutil import alpha_same, call_attr, call_name, calls_in, dewalrus, guard_facts, unparse, walk_local, text_facts
 from ..cfg import CFG
 from ..report import Finding, Report
 from ..srcindex import AnalysisError, Index, raw_funcs
@@ -247,7 +247,9 @@ def check_predicate(idx: Index, rep: Report) -> None:
     rets = [n for n in walk_local(f.node) if isinstance(n, ast.Return)]
     none_rets = [n for n in rets if isinstance(n.value, ast.Constant) and n.value.value is None]
     facts_all = [text_facts(f.node, n) for n in none_rets]
-    no_iface = any(any(re.fullmatch(r"effect_interfaces|len\(effect_interfaces\) == 0", t) and p is False or re.fullmatch(r"not effect_interfaces", t) and p for t, p in fs) for fs in facts_all)
+    ifn = {s_.targets[0].id for s_ in walk_local(f.node) if isinstance(s_, ast.Assign) and len(s_.targets) == 1 and isinstance(s_.targets[0], ast.Name) and isinstance(s_.value, ast.Call) and call_attr(s_.value) == "get_traits_of_type"}
+    ifr = "|".join(sorted(re.escape(x) for x in ifn | {"effect_interfaces"}))
+    no_iface = any(any(re.fullmatch(rf"(?:{ifr})|len\((?:{ifr})\) == 0", t) and p is False or re.fullmatch(rf"not (?:{ifr})", t) and p for t, p in fs) for fs in facts_all)
     inner_none = any(any(re.fullmatch(r"\w+ is None", dewalrus(t)) and p for t, p in fs) for fs in facts_all)
     if no_iface:
         r.ok(f.fq + ":no-interface", f"{f.loc} no MemoryEffect trait -> None (unknown)")
@@ -305,8 +307,9 @@ def check_erase_sites(idx: Index, rep: Report) -> None:
     sites = [
         (DCE, "RemoveUnusedOperations.match_and_rewrite", r"rewriter\.erase", [r"is_trivially_dead\(op\)"]),
         (PR, "GreedyRewritePatternApplier.match_and_rewrite", r"rewriter\.erase", [r"is_trivially_dead\(op\)", r"self\.dce_enabled"]),
-        (DCE, "LiveSet.delete_dead", r"block\.erase_op", [r"!self\.is_live\(operation\)"]),
-        (DCE, "LiveSet.delete_dead", r"region\.erase_block", [r"!any\(\(self\.is_live\(op\) for op in block\.ops\)\)", r"block != first|block is not first"]),
+        # {0} stands for the first argument of the erase call (the erased operation / block), whatever it is called
+        (DCE, "LiveSet.delete_dead", r"\w+\.erase_op", [r"!self\.is_live\({0}\)"]),
+        (DCE, "LiveSet.delete_dead", r"\w+\.erase_block", [r"!any\(\(self\.is_live\(op\) for op in {0}\.ops\)\)", r"{0} != \w+|{0} is not \w+"]),
         (CSE, "CSEDriver._simplify_operation", r"self\._mark_erasure", [r"is_trivially_dead\(op\)"]),
     ]
     for mod, q, callpat, guards in sites:
@@ -316,7 +319,8 @@ def check_erase_sites(idx: Index, rep: Report) -> None:
             raise AnalysisError(f"{f.fq}: erase site `{callpat}` not found")
         for c in cs:
             inst = f"{f.fq}:{unparse(c.func)}"
-            miss = _guarded(f, c, guards)
+            a0 = re.escape(unparse(c.args[0])) if c.args else ""
+            miss = _guarded(f, c, [g_.replace("{0}", a0) for g_ in guards])
             if miss:
                 r.fail(inst, Finding("C13.R2", f.fq, f"unguarded-erase:{unparse(c.func)}", f"`{unparse(c)[:80]}` is not control-dependent on {miss}", f"{f.module.relpath}:{c.lineno}"))
             else:
@@ -334,7 +338,7 @@ def check_erase_sites(idx: Index, rep: Report) -> None:
         for c in calls_in(fn.node):
             if call_attr(c) in ("erase", "erase_op", "erase_block", "detach_op", "detach_block") and isinstance(c.func, ast.Attribute):
                 n_er += 1
-                if (fn.qualname, unparse(c.func)) not in {("RemoveUnusedOperations.match_and_rewrite", "rewriter.erase"), ("LiveSet.delete_dead", "block.erase_op"), ("LiveSet.delete_dead", "region.erase_block")}:
+                if (fn.qualname, call_attr(c)) not in {("RemoveUnusedOperations.match_and_rewrite", "erase"), ("LiveSet.delete_dead", "erase_op"), ("LiveSet.delete_dead", "erase_block")}:
                     r.fail(f"{fn.fq}:{unparse(c.func)}", Finding("C13.R2", fn.fq, f"new-erase-site:{unparse(c.func)}", f"`{unparse(c)[:80]}` is an erase site the rule has not reviewed", f"{dce_mod.relpath}:{c.lineno}"))
     if n_er < 3:
         raise AnalysisError("erase sites of dead_code_elimination.py not found")
@@ -381,7 +385,7 @@ def check_liveness(idx: Index, rep: Report) -> None:
     def user_live(t_: str) -> bool:
         """`t_` states that some user of a result of op is live: the any(...) form, or a private predicate method whose
         body returns True exactly under self.is_live(<use>.operation) inside loops over op.results / result.uses."""
-        if re.fullmatch(want2_pat, t_):
+        if re.fullmatch(want2_pat, t_) or alpha_same(ast.parse(t_, mode="eval").body, f"any((self.is_live(use.operation) for result in {op}.results for use in result.uses))"):
             return True
         m_ = re.fullmatch(rf"self\.(_\w+)\({op}\)", t_)
         if not m_ or f.cls is None:
@@ -461,20 +465,23 @@ def check_liveness(idx: Index, rep: Report) -> None:
     f = idx.func(DCE, "region_dce")
     ws = [w for w in walk_local(f.node) if isinstance(w, ast.While)]
     ok = False
+    # the local holding the LiveSet, whatever it is called
+    lsn = {s_.targets[0].id for s_ in walk_local(f.node) if isinstance(s_, ast.Assign) and len(s_.targets) == 1 and isinstance(s_.targets[0], ast.Name) and isinstance(s_.value, ast.Call) and unparse(s_.value.func) == "LiveSet"}
+    ls = next(iter(lsn)) if len(lsn) == 1 else "live_set"
     if len(ws) == 1:
         bt = [unparse(s_) for s_ in ws[0].body]
         reg = f.node.args.args[0].arg
-        core = ["live_set.changed = False", f"live_set.propagate_region_liveness({reg})"]
-        if unparse(ws[0].test) == "live_set.changed" and bt == core:
+        core = [f"{ls}.changed = False", f"{ls}.propagate_region_liveness({reg})"]
+        if unparse(ws[0].test) == f"{ls}.changed" and bt == core:
             ok = True
-        elif unparse(ws[0].test) == "True" and bt[:2] == core and bt[2:] in (["if not live_set.changed:\n    break"], ["if live_set.changed:\n    continue\nbreak"]):
+        elif unparse(ws[0].test) == "True" and bt[:2] == core and bt[2:] in ([f"if not {ls}.changed:\n    break"], [f"if {ls}.changed:\n    continue\nbreak"]):
             ok = True
     if ok:
         r.ok(f.fq + ":fixpoint", f"{f.loc} while changed: changed=False; propagate")
     else:
         r.fail(f.fq + ":fixpoint", Finding("C13.R3", f.fq, "fixpoint-loop", "liveness must be re-propagated until a sweep changes nothing", f.loc))
     cfg = CFG(f.node)
-    dd = [c for c in calls_in(f.node) if unparse(c.func) == "live_set.delete_dead"]
+    dd = [c for c in calls_in(f.node) if unparse(c.func) == f"{ls}.delete_dead"]
     if len(dd) == 1 and ws and cfg.path_avoiding(cfg.entry, cfg.node_of(dd[0]), lambda n: n.id == cfg.node_of(ws[0].test)) is None and unparse(dd[0].args[0]) == f.node.args.args[0].arg:
         r.ok(f.fq + ":delete-after", f"{f.loc} deletion only after the fixpoint")
     else:
@@ -510,25 +517,41 @@ def check_notify_and_entry(idx: Index, rep: Report) -> None:
     r = rep.rule("C13.R4", "erased operations are announced to the listener before erasure; only non-entry blocks are erased; live ops' regions are descended", floor=3)
     f = idx.func(DCE, "LiveSet.delete_dead")
     cfg = CFG(f.node)
-    er = [c for c in calls_in(f.node) if unparse(c.func) == "block.erase_op"]
-    no = [c for c in calls_in(f.node) if unparse(c.func) == "listener.handle_operation_removal"]
+    p_region, p_listener = f.node.args.args[1].arg, f.node.args.args[2].arg
+    er = [c for c in calls_in(f.node) if call_attr(c) == "erase_op" and c.args]
+    no = [c for c in calls_in(f.node) if unparse(c.func) == f"{p_listener}.handle_operation_removal"]
     ok = bool(er) and bool(no)
     if ok:
         for e in er:
             ne = cfg.node_of(e)
             nn = {cfg.node_of(x) for x in no}
             # every path to the erase passes either a notification or the `listener is not None` test on its False edge
-            tests = {cfg.node_of(t) for t in walk_local(f.node) if isinstance(t, ast.If) and unparse(t.test) == "listener is not None" for t in [t.test]}
+            tests = {cfg.node_of(t) for t in walk_local(f.node) if isinstance(t, ast.If) and unparse(t.test) == f"{p_listener} is not None" for t in [t.test]}
             p = cfg.path_avoiding(cfg.entry, ne, lambda n: n.id in nn | tests, follow_exc=False)
             if p is not None or not tests:
                 ok = False
             if unparse(no[0].args[0]) != unparse(e.args[0]):
                 ok = False
     (r.ok(f.fq + ":notify", f"{f.loc} handle_operation_removal(op) before block.erase_op(op)") if ok else r.fail(f.fq + ":notify", Finding("C13.R4", f.fq, "erase-unannounced", "an operation is erased by region_dce without the listener being told first (the rewrite worklist keeps a dangling op)", f.loc)))
-    firsts = [s for s in f.node.body if isinstance(s, ast.Assign) and unparse(s) == f"first = {f.node.args.args[1].arg}.first_block"]
+    firsts = [s for s in f.node.body if isinstance(s, ast.Assign) and len(s.targets) == 1 and isinstance(s.targets[0], ast.Name) and unparse(s.value) == f"{p_region}.first_block"]
+    if firsts:
+        # the block erase must exclude exactly that local
+        fn_ = firsts[0].targets[0].id
+        eb = [c for c in calls_in(f.node) if call_attr(c) == "erase_block" and c.args]
+        if not all(_guarded(f, c, [rf"{re.escape(unparse(c.args[0]))} != {fn_}|{re.escape(unparse(c.args[0]))} is not {fn_}"]) == [] for c in eb):
+            firsts = []
     (r.ok(f.fq + ":entry", f"{f.loc} entry block = region.first_block is never erased") if firsts else r.fail(f.fq + ":entry", Finding("C13.R4", f.fq, "entry-block", "`first` is not region.first_block: the entry block could be erased", f.loc)))
     rec = [c for c in calls_in(f.node) if unparse(c.func) == "self.delete_dead"]
-    ok = bool(rec) and all((("self.is_live(operation)", True) in text_facts(f.node, c)) for c in rec)
+    def _descends_live(c: ast.Call) -> bool:
+        # the region handed to the recursive call comes from `for r in <op>.regions` and <op> is known to be live there
+        for w in walk_local(f.node):
+            if isinstance(w, ast.For) and any(x is c for x in ast.walk(w)) and c.args and unparse(w.target) == unparse(c.args[0]):
+                m_ = re.fullmatch(r"(\w+)\.regions", unparse(w.iter))
+                if m_ and (f"self.is_live({m_.group(1)})", True) in text_facts(f.node, c):
+                    return True
+        return False
+
+    ok = bool(rec) and all(_descends_live(c) for c in rec)
     (r.ok(f.fq + ":descend", f"{f.loc} regions of live ops are cleaned recursively") if ok else r.fail(f.fq + ":descend", Finding("C13.R4", f.fq, "no-descent", "regions of live operations are not cleaned (dead code remains after the pass)", f.loc)))
     ch = [s for s in walk_local(f.node) if isinstance(s, ast.Assign) and unparse(s) == "self.changed = True"]
     if len(ch) >= 2:
